@@ -219,3 +219,12 @@ Proof.
       (rewrite <- Ht in E0 || rewrite <- Ht in E1); cbn in *; try discriminate;
       try (inversion E0; subst; congruence); try (inversion E1; subst; congruence).
 Qed.
+
+(* check-then-act over a released lock: every access is under the lock (the discipline holds) but the
+   call is two critical sections (shape of StorageCar.Put testing the index under RLock and inserting
+   under a second Lock) *)
+Example two_sections_rejected :
+  let p := [Straight [Acq 0 MR; Rd 1; Rel 0 MR; Acq 0 MW; Wr 1; Rel 0 MW]] in
+  ok_path (fun _ => 0) (fun _ => false) (fun _ => false) [] [] p = true /\ sections_path 0 p = 2 /\
+  sections_path 0 [Straight [Acq 0 MW; Acq 1 MW; Rel 1 MW]; Iter [[Rd 1]]; Straight [Rel 0 MW]] = 1.
+Proof. repeat split; reflexivity. Qed.
